@@ -544,6 +544,14 @@ func (m *Machine) actSchedule(t *rapid.T, onlyPipeline string, inWindow bool) {
 	if !info.Schedulable && !undefined && !inWindow {
 		m.fail("C15", "pipeline %s listed as not schedulable but an immediate schedule request is accepted", p)
 	}
+	if js == nil && m.cfg.Retention && rec.Bad != "" && (def.RetentionPeriod > 0 && def.RetentionPeriod < time.Second) {
+		// A job that cannot start is finished (canceled with an error) the moment it is accepted; with a retention
+		// period of 20 ms the automatic save that follows may already have removed it when the harness looks
+		// (correction 37). Whether retention was right to remove it is judged where saves are made.
+		m.w.Stats.hit("unstartable-job-removed-by-retention-at-once")
+		m.afterStep()
+		return
+	}
 	if js == nil {
 		m.fail("C15", "accepted job #%d is not reported by the job list", rec.AcceptIdx)
 		m.fail("C03", "accepted job #%d is not reported by the job list", rec.AcceptIdx)
